@@ -765,6 +765,9 @@ func init() {
 			e.yield(th, "gosched")
 			return nil
 		},
+		// one processor: libraries that size their worker sets by it run their sequential variant
+		"runtime.GOMAXPROCS": func(e *Exec, th *Thread, caller *Frame, site ssa.Instruction, args []Value) Value { return e.mkInt(1) },
+		"runtime.NumCPU":     func(e *Exec, th *Thread, caller *Frame, site ssa.Instruction, args []Value) Value { return e.mkInt(1) },
 		"runtime.KeepAlive": func(e *Exec, th *Thread, caller *Frame, site ssa.Instruction, args []Value) Value { return nil },
 		"runtime.SetFinalizer": func(e *Exec, th *Thread, caller *Frame, site ssa.Instruction, args []Value) Value { return nil },
 		"internal/bytealg.IndexByteString": func(e *Exec, th *Thread, caller *Frame, site ssa.Instruction, args []Value) Value {
